@@ -1,0 +1,40 @@
+//go:build verif
+
+// Package verifhook provides schedule points for the model-checking harness under /verif.
+// With the build tag off (the default) every function here is empty.
+package verifhook
+
+import (
+	"sync"
+	"sync/atomic"
+)
+
+// Enabled reports whether the hooks are compiled in.
+const Enabled = true
+
+var handler atomic.Value // of func(name string, obj interface{})
+
+// SetHandler installs the function called at every schedule point (nil removes it).
+func SetHandler(h func(name string, obj interface{})) {
+	if h == nil {
+		h = func(string, interface{}) {}
+	}
+	handler.Store(h)
+}
+
+// Point is a schedule point: the harness may park the calling goroutine here.
+func Point(name string, obj interface{}) {
+	if h, ok := handler.Load().(func(string, interface{})); ok {
+		h(name, obj)
+	}
+}
+
+// CondYield releases l, offers a schedule point and re-acquires l. It must only be called where the
+// caller holds l and keeps no state derived from the data l protects.
+func CondYield(l sync.Locker, name string, obj interface{}) {
+	if h, ok := handler.Load().(func(string, interface{})); ok {
+		l.Unlock()
+		h(name, obj)
+		l.Lock()
+	}
+}
